@@ -305,6 +305,19 @@ pub enum Strategy {
     /// freeze the first thread found inside a clone/view body, let the others run `delay` more steps, then run
     /// one thread that is inside a try_* call alone (at most `bound` own steps), then thaw everything
     FreezeThenSolo { delay: usize, bound: usize },
+    /// a fixed sequence of phases, then random
+    Script(Vec<Ph>),
+}
+
+/// one phase of a scripted schedule
+#[derive(Clone, Debug)]
+pub enum Ph {
+    /// thread runs this many steps
+    Steps(usize, usize),
+    /// thread runs while fewer than this many threads exist
+    UntilThreads(usize, usize),
+    /// thread runs until it cannot move any more (finished or blocked)
+    ToEnd(usize),
 }
 
 pub struct Rng(pub u64);
@@ -353,6 +366,8 @@ pub fn control(s: &Arc<Sched>, strat: &Strategy, rng: &mut Rng, budget: usize) -
         }
     }
     let mut replay_pos = 0usize;
+    let mut script_pos = 0usize;
+    let mut script_used = 0usize;
     let mut low = 0u64;
     let mut solo_active = false;
     let mut solo_done = false;
@@ -542,6 +557,33 @@ pub fn control(s: &Arc<Sched>, strat: &Strategy, rng: &mut Rng, budget: usize) -
                 }
             }
             Strategy::Solo { .. } => cands[rng.below(cands.len())],
+            Strategy::Script(ph) => {
+                let nth = g.threads.len();
+                loop {
+                    if script_pos >= ph.len() {
+                        break;
+                    }
+                    let (th, over) = match &ph[script_pos] {
+                        Ph::Steps(th, n) => (*th, script_used >= *n),
+                        Ph::UntilThreads(th, n) => (*th, nth >= *n),
+                        Ph::ToEnd(th) => (*th, false),
+                    };
+                    if over || !enabled.contains(&th) {
+                        script_pos += 1;
+                        script_used = 0;
+                        continue;
+                    }
+                    break;
+                }
+                if script_pos < ph.len() {
+                    script_used += 1;
+                    match &ph[script_pos] {
+                        Ph::Steps(th, _) | Ph::UntilThreads(th, _) | Ph::ToEnd(th) => *th,
+                    }
+                } else {
+                    cands[rng.below(cands.len())]
+                }
+            }
             Strategy::Replay(v) => {
                 let p = if replay_pos < v.len() && enabled.contains(&v[replay_pos]) {
                     v[replay_pos]
